@@ -464,6 +464,26 @@ func (bc *boundsCtx) intrinsicLen(x ast.Expr, use Pt, facts []linFact) (min int6
 			}
 		}
 	}
+	// a local defined once by such a conversion (`runes := []rune(s)`), the string not reassigned since
+	if id, ok := x.(*ast.Ident); ok {
+		if o, ok := info.Uses[id].(*types.Var); ok && !o.IsField() {
+			if def, n := localDef(info, bc.r.FI.Decl.Body, o); n == 1 && def != nil {
+				if call, ok := ast.Unparen(def).(*ast.CallExpr); ok && len(call.Args) == 1 {
+					if tv, ok := info.Types[call.Fun]; ok && tv.IsType() {
+						stable := true
+						if so, ok := objOf(info, call.Args[0]).(*types.Var); ok && assignedBetween(info, bc.r.FI.Decl.Body, so, def.End(), id.Pos()) {
+							stable = false
+						}
+						if stable {
+							if min, why := bc.intrinsicLen(call, use, facts); min > 0 {
+								return min, why
+							}
+						}
+					}
+				}
+			}
+		}
+	}
 	if o := objOf(info, x); o != nil {
 		// value variable of a range over FindAllStringSubmatch: len = groups+1
 		for _, rs := range rangesIn(bc.r.FI.Decl.Body, func(rs *ast.RangeStmt) bool { return rs.Value != nil && objOf(info, rs.Value) == o }) {
@@ -570,6 +590,36 @@ func (bc *boundsCtx) discharge(n ast.Node) (bool, string) {
 	for v, ln := range rangeIdx {
 		facts = append(facts, linFact{"", v, 0}, linFact{v, ln, -1})
 	}
+	// a local slice defined exactly once as make([]T, n) (and never re-sliced or appended to: that would be a second
+	// definition) has length n
+	if base := indexedBase(n); base != nil {
+		if o, ok := objOf(bc.info, base).(*types.Var); ok && !o.IsField() {
+			if def, nd := localDef(bc.info, r.FI.Decl.Body, o); nd == 1 && def != nil {
+				if call, ok := ast.Unparen(def).(*ast.CallExpr); ok && len(call.Args) >= 2 {
+					if id, ok := call.Fun.(*ast.Ident); ok && id.Name == "make" {
+						if _, isB := bc.info.Uses[id].(*types.Builtin); isB {
+							if ln := bc.lin(call.Args[1], 0); ln.ok {
+								lenT := "len(" + exprStr(base) + ")"
+								// the operands of n must not change between the make and the use
+								stable := true
+								ast.Inspect(call.Args[1], func(y ast.Node) bool {
+									if di, ok := y.(*ast.Ident); ok {
+										if dv, ok := bc.info.Uses[di].(*types.Var); ok && !dv.IsField() && assignedBetween(bc.info, r.FI.Decl.Body, dv, def.End(), n.Pos()) {
+											stable = false
+										}
+									}
+									return true
+								})
+								if stable {
+									facts = append(facts, linFact{lenT, ln.term, ln.off}, linFact{ln.term, lenT, -ln.off})
+								}
+							}
+						}
+					}
+				}
+			}
+		}
+	}
 	switch x := n.(type) {
 	case *ast.IndexExpr:
 		if _, isMap := bc.info.TypeOf(x.X).Underlying().(*types.Map); isMap {
@@ -656,4 +706,16 @@ func enclosingAnd(root ast.Node, n ast.Node) []ast.Expr {
 		return true
 	})
 	return out
+}
+
+
+// indexedBase: the value being indexed / sliced by n.
+func indexedBase(n ast.Node) ast.Expr {
+	switch x := n.(type) {
+	case *ast.IndexExpr:
+		return ast.Unparen(x.X)
+	case *ast.SliceExpr:
+		return ast.Unparen(x.X)
+	}
+	return nil
 }
